@@ -356,7 +356,17 @@ fn ident(prefix: &'static str) -> impl Strategy<Value = String> {
 }
 
 pub fn prim_strategy(cfg: GenCfg) -> BoxedStrategy<Prim> {
-    let v: Vec<Prim> = ALL_PRIMS.iter().copied().filter(|p| cfg.f128 || *p != Prim::F128).collect();
+    // float128 has no Rust mapping in the derive macro (only the XML/dynamic route): keep it rare
+    let mut v: Vec<Prim> = vec![];
+    for p in ALL_PRIMS {
+        if p == Prim::F128 {
+            if cfg.f128 {
+                v.push(p);
+            }
+        } else {
+            v.extend([p; 4]);
+        }
+    }
     proptest::sample::select(v).boxed()
 }
 
